@@ -12,8 +12,12 @@ P = {
     'C02': (True, 'the same deviation-bounded exhaustive enumeration x 6 layouts (LF/CRLF/CR/BOM/tab/multi-byte), all-nodes-with-ranges build; every node checked structurally and against CPython positions converted to byte offsets',
             'Every node of every tree of every CPython-valid sentence inside the bound under every layout is checked for the structural clauses and for range equality with the reference extent.',
             'CPython 3.11 positions; pieces of an f-string are exempt from extent equality (3.11 gives each piece the extent of the whole literal)', '7/C02'),
-    'C03': (False, '', '', '', '7/C03'),
-    'C04': (False, '', '', '', '7/C04'),
+    'C03': (True, 'bounded-exhaustive enumeration: every string <=4/5 over a 26-character alphabet (<=5/6 over 14) x 3 modes x 4 start offsets inside the worker, all lexeme sequences, all single-character mutations of corpus sentences; scaling families in sub-processes with deterministic step counts (hook H2)',
+            'No input inside the bound panics (overflow checks on), every error offset lies in [start, start+len] on a character boundary, the token stream is finite up to its first error; 49 scaling families up to 4096 neither abort on an 8 MiB stack at realistic sizes nor grow faster than cubically in steps.',
+            'release build with overflow-checks/debug-assertions; step counter H2; the polynomial claim is checked on the listed families only', '7/C03'),
+    'C04': (True, 'exhaustive application of rule-violating edit operators at every site of every corpus sentence plus complete products of parameter lists, argument lists, indentation triples, number shapes and f-string bodies; CPython decides (by message class) that the case violates the rule',
+            'For every case CPython rejects for the rule in question, the real parser must reject with an error kind that names that rule and an offset inside the edited construct; single-violation filters keep cases with two independent errors out.',
+            'CPython 3.11 ast.parse/compile messages classify the violations; the kind table is at the granularity of the property\'s rule list', '7/C04'),
     'C05': (True, 'bounded-exhaustive enumeration of character strings, lexeme sequences and corpus layouts through the real lexer in both configurations and three modes; reference-free tiling invariants plus agreement with CPython\'s C tokenizer',
             'Every text inside the bound is lexed by the default and full-lexer builds; ranges, gaps, spellings, number/string payloads, NEWLINE/INDENT/DEDENT discipline and Comment/NonLogicalNewline tokens are checked on every token, and NAME/NUMBER/STRING/operator tokens are compared with _tokenize.TokenizerIter.',
             'CPython 3.11 C tokenizer for significant tokens (layout tokens are not compared with it); invariants computed from (Tok, range) and the text', '7/C05'),
@@ -23,7 +27,9 @@ P = {
     'C07': (True, 'bounded-exhaustive enumeration of f-string bodies over a 28-lexeme alphabet (<=3/4) x 4 wrappers, a product of field shapes (expression x conversion x spec x = form x neighbours) and of literal concatenations, vs CPython 3.11\'s parts and field-expression positions',
             'Every f-string inside the bound that CPython accepts must give the same JoinedStr/FormattedValue/Constant sequence, conversion, nested spec and inner-expression ranges.',
             'CPython 3.11 (pre-PEP 701) f-string compiler; the u-kind marker of constants inside nested format specs is masked (CPython marks them inconsistently)', '7/C07'),
-    'C08': (False, '', '', '', '7/C08'),
+    'C08': (True, 'exhaustive application of every single layout rewrite at every site of every corpus sentence (and layout x site pairs on the smallest sentences): global layouts, inserted lines, line ends, bracket breaks, backslash joins, redundant parentheses; CPython validates that a rewrite is layout-only',
+            'For every rewrite that CPython itself sees as layout-only (same position-free tree, or both rejected), the real parser must accept both or neither and build the same tree up to ranges.',
+            'CPython 3.11 as the judge of layout-onlyness; the relation itself is between two runs of the real parser', '7/C08'),
     'C09': (True, 'exhaustive enumeration of G_ref sentences (valid and invalid) and of all short character strings, each through every entry point at 6 start offsets, against the offset-0 result shifted/projected in the harness',
             'For every text inside the bound, every entry point (parse*, lex*, Parse::* for Mod/Suite/Stmt/Expr/Identifier/Constant and all 55 generated node types, deprecated helpers) in three modes at offsets {0,1,7,400,2^31,2^32-2-len} must equal the shifted / projected offset-0 result.',
             'reference = parse(text, mode) at offset 0 (self-relation, no external oracle)', '7/C09'),
